@@ -192,6 +192,20 @@ func (ex *Explorer) mayInterpret(fn *ssa.Function) bool {
 			return true
 		}
 	}
+	// any other standard-library package (no dot in the first path element) may be interpreted as well, except those
+	// that touch the operating system or the runtime: a refactoring that starts using e.g. path.Base must not turn a
+	// check inconclusive
+	first := path
+	if i := strings.Index(path, "/"); i >= 0 {
+		first = path[:i]
+	}
+	if !strings.Contains(first, ".") {
+		switch first {
+		case "os", "net", "syscall", "runtime", "unsafe", "plugin", "log", "testing", "time", "crypto", "database", "debug", "embed", "encoding", "hash", "html", "image", "mime", "archive", "compress", "context", "expvar", "index", "text", "regexp":
+			return false
+		}
+		return true
+	}
 	for _, p := range ex.InterpretPkgs {
 		if strings.HasPrefix(path, p) {
 			return true
